@@ -206,8 +206,19 @@ void reb_integrator_ias15_alloc(struct reb_simulation* r){
 }
  
 // Does the actual timestep.
+// Verification hook (only active with REBOUND_VERIF=1): checksum of the particle state
+static double reb_verif_ias15_sum(const struct reb_simulation* const r){
+    double s = 0.;
+    for (unsigned int i=0;i<r->N;i++){
+        const struct reb_particle p = r->particles[i];
+        s += (i+1.)*(p.x + 2.*p.y + 3.*p.z + 5.*p.vx + 7.*p.vy + 11.*p.vz);
+    }
+    return s;
+}
+
 static int reb_integrator_ias15_step(struct reb_simulation* r) {
     reb_integrator_ias15_alloc(r);
+    if (reb_verif_state!=0) REB_VERIF(r, "ias_beg", 4, r->t, r->dt, r->dt_last_done, reb_verif_ias15_sum(r));
 
     struct reb_particle* const particles = r->particles;
     int N;
@@ -612,6 +623,7 @@ static int reb_integrator_ias15_step(struct reb_simulation* r) {
             }
         }
 
+        REB_VERIF(r, "ias_raw", 4, dt_done, dt_new, r->ri_ias15.min_dt, r->ri_ias15.epsilon);
         if (fabs(dt_new)<r->ri_ias15.min_dt) dt_new = copysign(r->ri_ias15.min_dt,dt_new);
         
         if (fabs(dt_new/dt_done) < safety_factor) { // New timestep is significantly smaller.
@@ -636,6 +648,7 @@ static int reb_integrator_ias15_step(struct reb_simulation* r) {
                 predict_next_step(ratio, N3, er, br, e, b);
             }
             
+            if (reb_verif_state!=0) REB_VERIF(r, "ias_rej", 4, dt_done, r->dt, r->t, reb_verif_ias15_sum(r));
             return 0; // Step rejected. Do again. 
         }       
         if (fabs(dt_new/dt_done) > 1.0) {   // New timestep is larger.
@@ -692,6 +705,7 @@ static int reb_integrator_ias15_step(struct reb_simulation* r) {
     copybuffers(b,br,N3);       
     double ratio = r->dt/dt_done;
     predict_next_step(ratio, N3, e, b, e, b);
+    REB_VERIF(r, "ias_acc", 4, dt_done, r->dt, r->t, r->dt_last_done);
     return 1; // Success.
 }
 
